@@ -25,13 +25,13 @@ impl OutgoingConnectionFlowControllerImpl {
         Ocfc { total: self.total_available_window.0 as int, avail: self.available_window.0 as int }
     }
 
-//@ splice-fn quic/s2n-quic-transport/src/stream/outgoing_connection_flow_controller.rs "OutgoingConnectionFlowControllerImpl" acquire_window vis=strip "subst=self.available_window -= result;=>self.available_window.sub_assign(result);"
+//@ splice-fn quic/s2n-quic-transport/src/stream/outgoing_connection_flow_controller.rs "OutgoingConnectionFlowControllerImpl" acquire_window vis=strip desugar=assign_ops
 //@| requires ocfc_inv(old(self).abs()), desired.wf(),
 //@| ensures
 //@|     ocfc_acquire_post(old(self).abs(), desired.0 as int, final(self).abs(), ret.0 as int),
 //@|     ocfc_inv(final(self).abs()),
 
-//@ splice-fn quic/s2n-quic-transport/src/stream/outgoing_connection_flow_controller.rs "OutgoingConnectionFlowControllerImpl" on_max_data vis=strip "subst=frame.maximum_data - self.total_available_window=>frame.maximum_data.sub(self.total_available_window)@@self.available_window += increment;=>self.available_window.add_assign(increment);"
+//@ splice-fn quic/s2n-quic-transport/src/stream/outgoing_connection_flow_controller.rs "OutgoingConnectionFlowControllerImpl" on_max_data vis=strip "subst=frame.maximum_data - self.total_available_window=>frame.maximum_data.sub(self.total_available_window)" desugar=assign_ops
 //@| requires ocfc_inv(old(self).abs()), frame.maximum_data.wf(),
 //@| ensures
 //@|     ocfc_max_data_post(old(self).abs(), frame.maximum_data.0 as int, final(self).abs()),
@@ -68,7 +68,7 @@ impl StreamFlowController {
 //@|     sfc_set_msd_frame(old(self).abs(), max_stream_data.0 as int, final(self).abs()),
 //@|     sfc_inv(final(self).abs()),
 
-//@ splice-fn quic/s2n-quic-transport/src/stream/send_stream.rs "StreamFlowController" try_acquire_connection_window vis=strip "subst=self.acquired_connection_flow_controller_window += acquired;=>self.acquired_connection_flow_controller_window.add_assign(acquired);"
+//@ splice-fn quic/s2n-quic-transport/src/stream/send_stream.rs "StreamFlowController" try_acquire_connection_window vis=strip desugar=assign_ops
 //@| requires sfc_inv(old(self).abs()),
 //@| ensures
 //@|     sfc_inv(final(self).abs()),
